@@ -19,6 +19,9 @@ def run(ctx, R, tier):
     from .c06 import ungated
     ungated(F, R, rule='B.C05.speed-ungated')
     torn(F, R)
+    # a tween scheduled on another clock sees that clock's time of THIS buffer: clocks are advanced in creation order
+    from .c17 import once as update_order
+    update_order(F, R)
     from ..enginea import run_singular_only
     run_singular_only(R, F, lambda fn: fn.startswith('clock::') or '<clock::' in fn, floor=3)
 
